@@ -69,7 +69,8 @@ fn run_case<G: AffineRepr>(env: &Env<G>, c: &Case) -> CaseOut {
         }
     }
     // every single-field alteration + round surgery
-    for mu in single_field_muts(hm.n_points()) {
+    let big = c.cfg.n1 + c.cfg.n2 > 40;
+    for mu in single_field_muts(hm.n_points()).into_iter().enumerate().filter(|(i, _)| !big || i % 9 == 0).map(|(_, m)| m) {
         if let Some(m) = apply(&hm, &mu, &env.pc.B) {
             let class = if m == hm {
                 "field-mutation-noop"
@@ -109,7 +110,13 @@ fn run_case<G: AffineRepr>(env: &Env<G>, c: &Case) -> CaseOut {
     for t in 0..5usize {
         crafts.push(("crafted-zero-blinding", format!("zero-t_blinding[{}]", t), Craft { zero_draws: vec![need - 5 + t], ..Default::default() }));
     }
-    if pad > 0 {
+    // published blinding scalars that are exactly zero while the relations hold
+    crafts.push(("crafted-zero-published-blinding", "i,o,s blindings all zero (e_blinding = 0)".into(), Craft { zero_draws: if n2 > 0 { vec![0, 1, 2, 3 + 2 * n1, 4 + 2 * n1, 5 + 2 * n1] } else { vec![0, 1, 2] }, ..Default::default() }));
+    crafts.push(("crafted-zero-published-blinding", "all T blindings zero".into(), Craft { zero_draws: (need - 5..need).collect(), ..Default::default() }));
+    if big {
+        crafts.truncate(4);
+    }
+    if pad > 0 && !big {
         let e = pad.min(2);
         let pw: Vec<(F<G>, F<G>)> = rand_scalars::<G>(c.seed ^ 0x9a, 2 * e).chunks(2).map(|x| (x[0], x[1])).collect();
         crafts.push(("crafted-pad-witness", format!("witness-on-{}-padding-gates", e), Craft { pad_witness: pw, ..Default::default() }));
@@ -206,6 +213,11 @@ fn cases(ctx: &Ctx, curve: &str) -> Vec<Case> {
         GenCfg::simple(0, 5),
         GenCfg { closures: 1, ..GenCfg::simple(6, 0) },
         GenCfg::simple(9, 8),
+        GenCfg { m: 0, ..GenCfg::simple(2, 0) },
+        GenCfg { m: 0, ..GenCfg::simple(1, 2) },
+        // beyond 128 gates: the combined check has more than 512 terms (reduced corpus)
+        GenCfg { q: 1, depth: 1, ..GenCfg::simple(130, 0) },
+        GenCfg { q: 1, depth: 1, ..GenCfg::simple(70, 75) },
     ];
     for cfg in forced {
         v.push(Case { curve: curve.into(), seed: r.u64(), cfg, only: None });
@@ -219,7 +231,7 @@ fn cases(ctx: &Ctx, curve: &str) -> Vec<Case> {
 }
 
 fn run_curve<G: AffineRepr>(ctx: &Ctx, curve: &'static str, only: Option<&Case>) -> Agg {
-    let env = Env::<G>::new(curve, 64);
+    let env = Env::<G>::new(curve, 256);
     let cs = match only {
         Some(c) => vec![c.clone()],
         None => cases(ctx, curve),
